@@ -1279,11 +1279,17 @@ class Run:
     def e_JoinedStr(self, e, env):
         parts = []
         concrete = True
+        raw = []
         for p in e.values:
             if isinstance(p, ast.Constant):
                 parts.append(p.value)
+                raw.append(p.value)
             else:
                 v = self.eval(p.value, env)
+                raw.append(v)
+                if type(v).__name__ == "VText":
+                    concrete = False
+                    continue
                 try:
                     if not is_concrete(v):
                         raise NotConcrete
@@ -1299,6 +1305,11 @@ class Run:
                     concrete = False
         if concrete:
             return VStr(str, "".join(parts))
+        if any(type(x).__name__ == "VText" for x in raw):
+            h = self.ghost.get("text_fstring")
+            if h is None:
+                raise Unsupported("f-string over abstract text without a text model")
+            return h(self, raw)
         self.note("f-string rendering of symbolic values is abstracted to an unconstrained str and assumed not to raise")
         return VStr(str, self.fresh("hv_fstr", z3.StringSort()))
 
